@@ -23,7 +23,7 @@ RULE = (
     "a synthetic always-rejecting check registered in each of the 8 verifier categories, before or "
     "after the general checks, or as the first of two same-named checks.  Output directory states: absent, empty, unrelated files, files with "
     "the very names the generator writes (other text, a CRLF copy of the output, bytes that are not "
-    "UTF-8, an identical copy), stale .c/.h files.  Monitors: return value must be Err; a "
+    "UTF-8, an identical copy; <stem>.tmp/.bak/.orig siblings of every output), stale .c/.h files.  Monitors: return value must be Err; a "
     "sys.addaudithook event log of every write-open / remove / rename / mkdir / rmdir during the "
     "call (catches write-then-delete and writes outside the directory) and a content-hash snapshot "
     "of the directory before/after.  The `python -m fcp generate` command line is run as a subprocess for an "
@@ -38,7 +38,7 @@ GENERATORS = ["dbc", "can_c", "cpp", "nop"]
 CATEGORIES = ["struct", "field", "enum", "impl", "signal_block", "type", "device", "uncategorized"]
 DIR_STATES = ["absent", "empty", "unrelated", "same-names", "stale-c"]
 # states that need the contents the plug-in is going to return (only used on the success path)
-CONTENT_STATES = ["same-names-crlf-copy", "same-names-not-utf8", "same-names-identical"]
+CONTENT_STATES = ["same-names-crlf-copy", "same-names-not-utf8", "same-names-identical", "sibling-temp-files"]
 
 
 def shards(tier):
@@ -113,6 +113,16 @@ def prepare_dir(root, state, names, contents=None):
     if state == "absent":
         return out
     os.makedirs(out)
+    if state == "sibling-temp-files":
+        # the user's own files that merely look like temporaries of the outputs: <stem>.tmp/.bak/.orig/~
+        for rel in (contents or {}):
+            base = os.path.join(out, rel)
+            os.makedirs(os.path.dirname(base), exist_ok=True)
+            stem = os.path.splitext(base)[0]
+            for sib in (stem + ".tmp", stem + ".bak", base + ".orig", base + "~", base + ".tmp"):
+                with open(sib, "w") as f:
+                    f.write("user file %s\n" % os.path.basename(sib))
+        return out
     if state in CONTENT_STATES:
         for rel, text in (contents or {}).items():
             p = os.path.join(out, rel)
